@@ -1057,6 +1057,86 @@ def gen_aggregation(tree):
             "def aggregations : List (String × List String × List String × List String) := [\n" + body + "\n]\n\nend Boario.Gen\n")
 
 
+def gen_lifecycle(tree):
+    """the status transitions of `Simulation._check_happening_events`: for each loop over the trackers, the status it tests,
+    its guard as a proposition over integers, and the status given to each class of event"""
+    sim = find_class(tree, "Simulation")
+    fn = find_func(sim, "_check_happening_events")
+    names = {"current_temporal_unit": "t", "n_temporal_units_by_step": "dt", "occurrence": "occ", "duration": "dur"}
+
+    def iexpr(e):
+        if isinstance(e, ast.Constant) and isinstance(e.value, int) and not isinstance(e.value, bool):
+            return f"({e.value} : Int)"
+        if isinstance(e, ast.Attribute) and e.attr in names:
+            return names[e.attr]
+        if isinstance(e, ast.BinOp) and isinstance(e.op, (ast.Add, ast.Sub, ast.Mult)):
+            op = {ast.Add: "+", ast.Sub: "-", ast.Mult: "*"}[type(e.op)]
+            return f"({iexpr(e.left)} {op} {iexpr(e.right)})"
+        raise Untranslatable(ast.unparse(e))
+
+    def guard(e):
+        if isinstance(e, ast.Compare):
+            ops = {ast.LtE: "≤", ast.Lt: "<", ast.GtE: "≥", ast.Gt: ">", ast.Eq: "=", ast.NotEq: "≠"}
+            terms = [e.left] + list(e.comparators)
+            parts_ = []
+            for a_, op_, b_ in zip(terms, e.ops, terms[1:]):
+                if type(op_) not in ops:
+                    raise Untranslatable(ast.unparse(e))
+                parts_.append(f"({iexpr(a_)} {ops[type(op_)]} {iexpr(b_)})")
+            return "(" + " ∧ ".join(parts_) + ")"
+        if isinstance(e, ast.BoolOp):
+            j = " ∧ " if isinstance(e.op, ast.And) else " ∨ "
+            return "(" + j.join(guard(v) for v in e.values) + ")"
+        raise Untranslatable(ast.unparse(e))
+
+    def assignments(stmts, cls="*"):
+        out = []
+        for st in stmts:
+            if isinstance(st, ast.Assign) and len(st.targets) == 1 and isinstance(st.targets[0], ast.Attribute) \
+                    and st.targets[0].attr == "_status" and isinstance(st.value, ast.Constant):
+                out.append((cls, st.value.value))
+            elif isinstance(st, ast.If):
+                t = ast.unparse(st.test)
+                if t.startswith("isinstance("):
+                    c_ = t[t.index(",") + 1:].strip(" ()").replace(" ", "")
+                    out += assignments(st.body, c_)
+                    out += assignments(st.orelse, cls if cls != "*" else "else")
+                else:
+                    out += assignments(st.body, cls) + assignments(st.orelse, cls)
+        return out
+
+    loops, defs = [], []
+    k = 0
+    for st in fn.body:
+        if isinstance(st, ast.For) and "_event_tracking" in ast.unparse(st.iter):
+            for inner in st.body:
+                if isinstance(inner, ast.If) and isinstance(inner.test, ast.Compare) and ast.unparse(inner.test.left).endswith(".status") \
+                        and isinstance(inner.test.comparators[0], ast.Constant):
+                    tested = inner.test.comparators[0].value
+                    g, asg = "unknown", []
+                    for s2 in inner.body:
+                        if isinstance(s2, ast.If):
+                            try:
+                                g = guard(s2.test)
+                            except Untranslatable as u:
+                                g = f"(untranslatable_guard {lstr(str(u))})"
+                            asg = assignments(s2.body)
+                    name = f"guard{k}"
+                    defs.append(f"/-- guard of loop {k} (trackers whose status is {tested!r}): `{ast.unparse(s2.test) if isinstance(s2, ast.If) else ''}` -/\n"
+                                f"def {name} (t dt occ dur : Int) : Prop := {g}\n\n"
+                                f"instance (t dt occ dur : Int) : Decidable ({name} t dt occ dur) := by unfold {name}; infer_instance\n")
+                    loops.append((k, tested, asg))
+                    k += 1
+                else:
+                    loops.append((k, "<unrecognised statement in the loop>", []))
+                    k += 1
+    body = ",\n".join(f"  ({i}, {lstr(t)}, [{', '.join('(' + lstr(c) + ', ' + lstr(v) + ')' for c, v in a)}])" for i, t, a in loops)
+    return ("/- GENERATED by harness/translate.py: status transitions of Simulation._check_happening_events. Do not edit. -/\n"
+            "namespace Boario.Gen\n\n" + "\n".join(defs) +
+            "\n/-- the loops over the trackers, in source order: (ordinal, status tested, [(event class, status given)]) -/\n"
+            "def lifecycleLoops : List (Nat × String × List (String × String)) := [\n" + body + "\n]\n\nend Boario.Gen\n")
+
+
 def regenerate():
     GEN.mkdir(parents=True, exist_ok=True)
     trees = {}
@@ -1069,6 +1149,7 @@ def regenerate():
         "Slices.lean": gen_slices(trees),
         "Loop.lean": gen_loop(trees["simulation"]),
         "Aggregation.lean": gen_aggregation(trees["simulation"]),
+        "Lifecycle.lean": gen_lifecycle(trees["simulation"]),
         "Formulas.lean": gen_formulas(trees, ast.parse((REPO / "boario" / "utils" / "recovery_functions.py").read_text())),
     }
     changed = []
